@@ -212,11 +212,12 @@ def scan_float(bs):
 ERANGE = 34      # <errno.h> of x86-64 Linux
 
 
-def make_models(int_value=None, on_float=None, extra=None):
+def make_models(int_value=None, on_float=None, extra=None, errno0=0):
     """libc models.  int_value(it, ctx, text, base, value) -> value to return from strtoul & co
     (default: the concrete value saturated to 64 bits).  on_float(it, ctx, fname, text) -> value."""
 
-    errno_cell = {'v': 0}
+    # errno0: what an earlier library call left in errno when the run starts (no function of the standard library ever sets it to zero, ISO C 7.5p3)
+    errno_cell = {'v': errno0}
 
     def m_strlen(it, ctx, n, a):
         return len(cbytes(a[0]))
